@@ -1,6 +1,7 @@
 package main
 
 import (
+	"context"
 	"fmt"
 	"unsafe"
 
@@ -20,6 +21,7 @@ type Owner struct {
 	Name  string
 	Note  string
 	Stamp string // written by BeforeSave through tx.Statement.SetColumn
+	Ver   int    // counter: BeforeSave sets it to (in-memory value + 1) through SetColumn
 	Mark  string // written by BeforeCreate / BeforeUpdate through SetColumn
 	Pet   Pet    `gorm:"foreignKey:OwnerID"`
 	Toys  []Toy  `gorm:"foreignKey:OwnerID"`
@@ -31,6 +33,7 @@ type OwnerP struct {
 	Note  string
 	Stamp string
 	Mark  string
+	Ver   int
 	Pet   *Pet   `gorm:"foreignKey:OwnerID"`
 	Toys  []*Toy `gorm:"foreignKey:OwnerID"`
 }
@@ -44,6 +47,7 @@ type Pet struct {
 	Note    string
 	Stamp   string
 	Mark    string
+	Ver     int
 }
 
 type Toy struct {
@@ -53,6 +57,7 @@ type Toy struct {
 	Note    string
 	Stamp   string
 	Mark    string
+	Ver     int
 }
 
 // Node references itself through a many2many relation: records can be shared
@@ -63,28 +68,48 @@ type Node struct {
 	Note  string
 	Stamp string
 	Mark  string
+	Ver   int
 	Peers []*Node `gorm:"many2many:node_peers"`
 }
 
+// Audit and Stat are written by the hook bodies; they have no hooks.
+type Audit struct {
+	ID   uint
+	Hook string
+	Tbl  string
+	Name string
+}
+
+type Stat struct {
+	ID   uint
+	Hits int
+	Note string
+}
+
 const schemaSQL = `
-CREATE TABLE nodes (id integer primary key autoincrement, name text, note text, stamp text, mark text);
+CREATE TABLE nodes (id integer primary key autoincrement, name text, note text, stamp text, mark text, ver integer default 0);
 CREATE TABLE node_peers (node_id integer, peer_id integer, primary key (node_id, peer_id));
-CREATE TABLE owners (id integer primary key autoincrement, name text, note text, stamp text, mark text);
-CREATE TABLE pets (id integer primary key autoincrement, owner_id integer, name text, note text, stamp text, mark text);
-CREATE TABLE toys (id integer primary key autoincrement, owner_id integer, name text, note text, stamp text, mark text);
+CREATE TABLE owners (id integer primary key autoincrement, name text, note text, stamp text, mark text, ver integer default 0);
+CREATE TABLE pets (id integer primary key autoincrement, owner_id integer, name text, note text, stamp text, mark text, ver integer default 0);
+CREATE TABLE toys (id integer primary key autoincrement, owner_id integer, name text, note text, stamp text, mark text, ver integer default 0);
 CREATE TABLE audits (id integer primary key autoincrement, hook text, tbl text, name text);
+CREATE TABLE stats (id integer primary key autoincrement, hits integer, note text);
 `
 
 const resetSQL = `
-DELETE FROM owners; DELETE FROM pets; DELETE FROM toys; DELETE FROM audits; DELETE FROM nodes; DELETE FROM node_peers; DELETE FROM sqlite_sequence;
+DELETE FROM owners; DELETE FROM pets; DELETE FROM toys; DELETE FROM audits; DELETE FROM stats; DELETE FROM nodes; DELETE FROM node_peers; DELETE FROM sqlite_sequence;
 INSERT INTO nodes (id,name,note,stamp,mark) VALUES (1,'n1','n','','');
 INSERT INTO owners (id,name,note,stamp,mark) VALUES (1,'o1','n','',''),(2,'o2','n','',''),(3,'o3','n','','');
 INSERT INTO pets (id,owner_id,name,note,stamp,mark) VALUES (1,1,'p1','n','',''),(2,2,'p2','n','',''),(3,3,'p3','n','','');
 INSERT INTO toys (id,owner_id,name,note,stamp,mark) VALUES (1,1,'t1','n','',''),(2,1,'t2','n','',''),(3,2,'t3','n','',''),(4,2,'t4','n','',''),(5,3,'t5','n','',''),(6,3,'t6','n','','');
 INSERT INTO audits (id,hook,tbl,name) VALUES (1,'seed','seed','seed');
+INSERT INTO stats (id,hits,note) VALUES (1,0,'');
 `
 
-var allTables = []string{"owners", "pets", "toys", "nodes", "node_peers", "audits"}
+var allTables = []string{"owners", "pets", "toys", "nodes", "node_peers", "audits", "stats"}
+
+// tables written by the hook bodies (not by the operation itself)
+func isHookTable(t string) bool { return t == "audits" || t == "stats" }
 
 // ---------------------------------------------------------------------------
 // Per-execution state, reachable from inside a hook through tx.Logger (the
@@ -116,6 +141,9 @@ type hookEv struct {
 	MarkerErr string
 	SetCol    string
 	SetVal    string
+	SetVer    int // BeforeSave: value given to SetColumn("Ver", …); 0 = not set
+	Stmts     int // statements the hook body issued
+	Incr      int // increments of stats.hits made by the hook body
 	Fail      *hookErr
 	Ident     string // resolved after the operation
 	PTable    string // phase table: Table, or "nodes:nested" for a Node reached through Peers
@@ -130,6 +158,8 @@ type execState struct {
 	log  []hookEv
 	nth  map[string]int
 	errs []*hookErr
+	body string // hook body variant (Case.Body)
+	hits int    // increments of stats.hits made so far by the hooks of this execution
 }
 
 func stateOf(tx *gorm.DB) *execState {
@@ -142,18 +172,60 @@ func stateOf(tx *gorm.DB) *execState {
 // fire is the body of every hook: log (record, hook, pool), write a marker
 // row through tx, set a column from the before-hooks, then ask the explorer
 // whether this invocation fails.
-func fire(tx *gorm.DB, table string, addr unsafe.Pointer, id uint, name string, hook string) error {
+func fire(tx *gorm.DB, table string, addr unsafe.Pointer, id uint, name string, ver int, hook string) error {
 	st := stateOf(tx)
 	if st == nil {
 		return nil
 	}
 	ev := hookEv{Seq: st.env.Rec.Len(), Table: table, Addr: uintptr(addr), ID: id, Name: name, Hook: hook, Pool: tx.Statement.ConnPool}
-	if r := tx.Exec("INSERT INTO audits (hook,tbl,name) VALUES (?,?,?)", hook, table, name); r.Error != nil {
-		ev.MarkerErr = r.Error.Error()
+	bad := func(what string, err error) {
+		if err != nil && ev.MarkerErr == "" {
+			ev.MarkerErr = what + ": " + err.Error()
+		}
+	}
+	switch st.body {
+	case "handle":
+		// two writes through ONE derived handle kept in a variable, then both
+		// are read back through the same handle (a query leaves its FROM clause
+		// on the handle, so the read comes last: reuse after a query is the
+		// documented hazard, not the subject here)
+		h := tx.Model(&Stat{ID: 1})
+		bad("1st write through the derived handle", h.UpdateColumn("hits", gorm.Expr("hits + ?", 1)).Error)
+		st.hits++
+		bad("2nd write through the derived handle", h.UpdateColumn("note", hook+"/"+name).Error)
+		var got Stat
+		if err := h.Take(&got).Error; err != nil {
+			bad("read back through the derived handle", err)
+		} else if got.Hits != st.hits || got.Note != hook+"/"+name {
+			bad("read back through the derived handle", fmt.Errorf("hits=%d note=%q, but the hooks of this operation have written hits=%d note=%q", got.Hits, got.Note, st.hits, hook+"/"+name))
+		}
+		bad("marker create", tx.Create(&Audit{Hook: hook, Tbl: table, Name: name}).Error)
+		ev.Stmts, ev.Incr = 4, 1
+	case "session":
+		// later writes through Session / WithContext of the derived handle
+		h := tx.Model(&Stat{ID: 1})
+		bad("1st write through the derived handle", h.UpdateColumn("hits", gorm.Expr("hits + ?", 1)).Error)
+		bad("2nd write through handle.Session(&Session{})", h.Session(&gorm.Session{}).UpdateColumn("hits", gorm.Expr("hits + ?", 1)).Error)
+		bad("3rd write through handle.WithContext", h.WithContext(context.Background()).UpdateColumn("hits", gorm.Expr("hits + ?", 1)).Error)
+		st.hits += 3
+		bad("marker exec", tx.Exec("INSERT INTO audits (hook,tbl,name) VALUES (?,?,?)", hook, table, name).Error)
+		ev.Stmts, ev.Incr = 4, 3
+	case "create_update":
+		// Create then Update through one derived handle
+		a := &Audit{Hook: hook, Tbl: table, Name: "tmp"}
+		h := tx.Model(a)
+		bad("create through the derived handle", h.Create(a).Error)
+		bad("update through the derived handle", h.Update("name", name).Error)
+		ev.Stmts = 2
+	default:
+		bad("exec", tx.Exec("INSERT INTO audits (hook,tbl,name) VALUES (?,?,?)", hook, table, name).Error)
+		ev.Stmts = 1
 	}
 	switch hook {
 	case "BeforeSave":
 		ev.SetCol, ev.SetVal = "Stamp", "bs:"+name
+		ev.SetVer = ver + 1
+		tx.Statement.SetColumn("Ver", ev.SetVer)
 	case "BeforeCreate":
 		ev.SetCol, ev.SetVal = "Mark", "bc:"+name
 	case "BeforeUpdate":
@@ -178,141 +250,141 @@ func fire(tx *gorm.DB, table string, addr unsafe.Pointer, id uint, name string, 
 }
 
 func (o *Owner) BeforeSave(tx *gorm.DB) error {
-	return fire(tx, "owners", unsafe.Pointer(o), o.ID, o.Name, "BeforeSave")
+	return fire(tx, "owners", unsafe.Pointer(o), o.ID, o.Name, o.Ver, "BeforeSave")
 }
 func (o *Owner) BeforeCreate(tx *gorm.DB) error {
-	return fire(tx, "owners", unsafe.Pointer(o), o.ID, o.Name, "BeforeCreate")
+	return fire(tx, "owners", unsafe.Pointer(o), o.ID, o.Name, o.Ver, "BeforeCreate")
 }
 func (o *Owner) AfterCreate(tx *gorm.DB) error {
-	return fire(tx, "owners", unsafe.Pointer(o), o.ID, o.Name, "AfterCreate")
+	return fire(tx, "owners", unsafe.Pointer(o), o.ID, o.Name, o.Ver, "AfterCreate")
 }
 func (o *Owner) BeforeUpdate(tx *gorm.DB) error {
-	return fire(tx, "owners", unsafe.Pointer(o), o.ID, o.Name, "BeforeUpdate")
+	return fire(tx, "owners", unsafe.Pointer(o), o.ID, o.Name, o.Ver, "BeforeUpdate")
 }
 func (o *Owner) AfterUpdate(tx *gorm.DB) error {
-	return fire(tx, "owners", unsafe.Pointer(o), o.ID, o.Name, "AfterUpdate")
+	return fire(tx, "owners", unsafe.Pointer(o), o.ID, o.Name, o.Ver, "AfterUpdate")
 }
 func (o *Owner) AfterSave(tx *gorm.DB) error {
-	return fire(tx, "owners", unsafe.Pointer(o), o.ID, o.Name, "AfterSave")
+	return fire(tx, "owners", unsafe.Pointer(o), o.ID, o.Name, o.Ver, "AfterSave")
 }
 func (o *Owner) BeforeDelete(tx *gorm.DB) error {
-	return fire(tx, "owners", unsafe.Pointer(o), o.ID, o.Name, "BeforeDelete")
+	return fire(tx, "owners", unsafe.Pointer(o), o.ID, o.Name, o.Ver, "BeforeDelete")
 }
 func (o *Owner) AfterDelete(tx *gorm.DB) error {
-	return fire(tx, "owners", unsafe.Pointer(o), o.ID, o.Name, "AfterDelete")
+	return fire(tx, "owners", unsafe.Pointer(o), o.ID, o.Name, o.Ver, "AfterDelete")
 }
 func (o *Owner) AfterFind(tx *gorm.DB) error {
-	return fire(tx, "owners", unsafe.Pointer(o), o.ID, o.Name, "AfterFind")
+	return fire(tx, "owners", unsafe.Pointer(o), o.ID, o.Name, o.Ver, "AfterFind")
 }
 
 func (o *OwnerP) BeforeSave(tx *gorm.DB) error {
-	return fire(tx, "owners", unsafe.Pointer(o), o.ID, o.Name, "BeforeSave")
+	return fire(tx, "owners", unsafe.Pointer(o), o.ID, o.Name, o.Ver, "BeforeSave")
 }
 func (o *OwnerP) BeforeCreate(tx *gorm.DB) error {
-	return fire(tx, "owners", unsafe.Pointer(o), o.ID, o.Name, "BeforeCreate")
+	return fire(tx, "owners", unsafe.Pointer(o), o.ID, o.Name, o.Ver, "BeforeCreate")
 }
 func (o *OwnerP) AfterCreate(tx *gorm.DB) error {
-	return fire(tx, "owners", unsafe.Pointer(o), o.ID, o.Name, "AfterCreate")
+	return fire(tx, "owners", unsafe.Pointer(o), o.ID, o.Name, o.Ver, "AfterCreate")
 }
 func (o *OwnerP) BeforeUpdate(tx *gorm.DB) error {
-	return fire(tx, "owners", unsafe.Pointer(o), o.ID, o.Name, "BeforeUpdate")
+	return fire(tx, "owners", unsafe.Pointer(o), o.ID, o.Name, o.Ver, "BeforeUpdate")
 }
 func (o *OwnerP) AfterUpdate(tx *gorm.DB) error {
-	return fire(tx, "owners", unsafe.Pointer(o), o.ID, o.Name, "AfterUpdate")
+	return fire(tx, "owners", unsafe.Pointer(o), o.ID, o.Name, o.Ver, "AfterUpdate")
 }
 func (o *OwnerP) AfterSave(tx *gorm.DB) error {
-	return fire(tx, "owners", unsafe.Pointer(o), o.ID, o.Name, "AfterSave")
+	return fire(tx, "owners", unsafe.Pointer(o), o.ID, o.Name, o.Ver, "AfterSave")
 }
 func (o *OwnerP) BeforeDelete(tx *gorm.DB) error {
-	return fire(tx, "owners", unsafe.Pointer(o), o.ID, o.Name, "BeforeDelete")
+	return fire(tx, "owners", unsafe.Pointer(o), o.ID, o.Name, o.Ver, "BeforeDelete")
 }
 func (o *OwnerP) AfterDelete(tx *gorm.DB) error {
-	return fire(tx, "owners", unsafe.Pointer(o), o.ID, o.Name, "AfterDelete")
+	return fire(tx, "owners", unsafe.Pointer(o), o.ID, o.Name, o.Ver, "AfterDelete")
 }
 func (o *OwnerP) AfterFind(tx *gorm.DB) error {
-	return fire(tx, "owners", unsafe.Pointer(o), o.ID, o.Name, "AfterFind")
+	return fire(tx, "owners", unsafe.Pointer(o), o.ID, o.Name, o.Ver, "AfterFind")
 }
 
 func (o *Pet) BeforeSave(tx *gorm.DB) error {
-	return fire(tx, "pets", unsafe.Pointer(o), o.ID, o.Name, "BeforeSave")
+	return fire(tx, "pets", unsafe.Pointer(o), o.ID, o.Name, o.Ver, "BeforeSave")
 }
 func (o *Pet) BeforeCreate(tx *gorm.DB) error {
-	return fire(tx, "pets", unsafe.Pointer(o), o.ID, o.Name, "BeforeCreate")
+	return fire(tx, "pets", unsafe.Pointer(o), o.ID, o.Name, o.Ver, "BeforeCreate")
 }
 func (o *Pet) AfterCreate(tx *gorm.DB) error {
-	return fire(tx, "pets", unsafe.Pointer(o), o.ID, o.Name, "AfterCreate")
+	return fire(tx, "pets", unsafe.Pointer(o), o.ID, o.Name, o.Ver, "AfterCreate")
 }
 func (o *Pet) BeforeUpdate(tx *gorm.DB) error {
-	return fire(tx, "pets", unsafe.Pointer(o), o.ID, o.Name, "BeforeUpdate")
+	return fire(tx, "pets", unsafe.Pointer(o), o.ID, o.Name, o.Ver, "BeforeUpdate")
 }
 func (o *Pet) AfterUpdate(tx *gorm.DB) error {
-	return fire(tx, "pets", unsafe.Pointer(o), o.ID, o.Name, "AfterUpdate")
+	return fire(tx, "pets", unsafe.Pointer(o), o.ID, o.Name, o.Ver, "AfterUpdate")
 }
 func (o *Pet) AfterSave(tx *gorm.DB) error {
-	return fire(tx, "pets", unsafe.Pointer(o), o.ID, o.Name, "AfterSave")
+	return fire(tx, "pets", unsafe.Pointer(o), o.ID, o.Name, o.Ver, "AfterSave")
 }
 func (o *Pet) BeforeDelete(tx *gorm.DB) error {
-	return fire(tx, "pets", unsafe.Pointer(o), o.ID, o.Name, "BeforeDelete")
+	return fire(tx, "pets", unsafe.Pointer(o), o.ID, o.Name, o.Ver, "BeforeDelete")
 }
 func (o *Pet) AfterDelete(tx *gorm.DB) error {
-	return fire(tx, "pets", unsafe.Pointer(o), o.ID, o.Name, "AfterDelete")
+	return fire(tx, "pets", unsafe.Pointer(o), o.ID, o.Name, o.Ver, "AfterDelete")
 }
 func (o *Pet) AfterFind(tx *gorm.DB) error {
-	return fire(tx, "pets", unsafe.Pointer(o), o.ID, o.Name, "AfterFind")
+	return fire(tx, "pets", unsafe.Pointer(o), o.ID, o.Name, o.Ver, "AfterFind")
 }
 
 func (o *Toy) BeforeSave(tx *gorm.DB) error {
-	return fire(tx, "toys", unsafe.Pointer(o), o.ID, o.Name, "BeforeSave")
+	return fire(tx, "toys", unsafe.Pointer(o), o.ID, o.Name, o.Ver, "BeforeSave")
 }
 func (o *Toy) BeforeCreate(tx *gorm.DB) error {
-	return fire(tx, "toys", unsafe.Pointer(o), o.ID, o.Name, "BeforeCreate")
+	return fire(tx, "toys", unsafe.Pointer(o), o.ID, o.Name, o.Ver, "BeforeCreate")
 }
 func (o *Toy) AfterCreate(tx *gorm.DB) error {
-	return fire(tx, "toys", unsafe.Pointer(o), o.ID, o.Name, "AfterCreate")
+	return fire(tx, "toys", unsafe.Pointer(o), o.ID, o.Name, o.Ver, "AfterCreate")
 }
 func (o *Toy) BeforeUpdate(tx *gorm.DB) error {
-	return fire(tx, "toys", unsafe.Pointer(o), o.ID, o.Name, "BeforeUpdate")
+	return fire(tx, "toys", unsafe.Pointer(o), o.ID, o.Name, o.Ver, "BeforeUpdate")
 }
 func (o *Toy) AfterUpdate(tx *gorm.DB) error {
-	return fire(tx, "toys", unsafe.Pointer(o), o.ID, o.Name, "AfterUpdate")
+	return fire(tx, "toys", unsafe.Pointer(o), o.ID, o.Name, o.Ver, "AfterUpdate")
 }
 func (o *Toy) AfterSave(tx *gorm.DB) error {
-	return fire(tx, "toys", unsafe.Pointer(o), o.ID, o.Name, "AfterSave")
+	return fire(tx, "toys", unsafe.Pointer(o), o.ID, o.Name, o.Ver, "AfterSave")
 }
 func (o *Toy) BeforeDelete(tx *gorm.DB) error {
-	return fire(tx, "toys", unsafe.Pointer(o), o.ID, o.Name, "BeforeDelete")
+	return fire(tx, "toys", unsafe.Pointer(o), o.ID, o.Name, o.Ver, "BeforeDelete")
 }
 func (o *Toy) AfterDelete(tx *gorm.DB) error {
-	return fire(tx, "toys", unsafe.Pointer(o), o.ID, o.Name, "AfterDelete")
+	return fire(tx, "toys", unsafe.Pointer(o), o.ID, o.Name, o.Ver, "AfterDelete")
 }
 func (o *Toy) AfterFind(tx *gorm.DB) error {
-	return fire(tx, "toys", unsafe.Pointer(o), o.ID, o.Name, "AfterFind")
+	return fire(tx, "toys", unsafe.Pointer(o), o.ID, o.Name, o.Ver, "AfterFind")
 }
 
 func (o *Node) BeforeSave(tx *gorm.DB) error {
-	return fire(tx, "nodes", unsafe.Pointer(o), o.ID, o.Name, "BeforeSave")
+	return fire(tx, "nodes", unsafe.Pointer(o), o.ID, o.Name, o.Ver, "BeforeSave")
 }
 func (o *Node) BeforeCreate(tx *gorm.DB) error {
-	return fire(tx, "nodes", unsafe.Pointer(o), o.ID, o.Name, "BeforeCreate")
+	return fire(tx, "nodes", unsafe.Pointer(o), o.ID, o.Name, o.Ver, "BeforeCreate")
 }
 func (o *Node) AfterCreate(tx *gorm.DB) error {
-	return fire(tx, "nodes", unsafe.Pointer(o), o.ID, o.Name, "AfterCreate")
+	return fire(tx, "nodes", unsafe.Pointer(o), o.ID, o.Name, o.Ver, "AfterCreate")
 }
 func (o *Node) BeforeUpdate(tx *gorm.DB) error {
-	return fire(tx, "nodes", unsafe.Pointer(o), o.ID, o.Name, "BeforeUpdate")
+	return fire(tx, "nodes", unsafe.Pointer(o), o.ID, o.Name, o.Ver, "BeforeUpdate")
 }
 func (o *Node) AfterUpdate(tx *gorm.DB) error {
-	return fire(tx, "nodes", unsafe.Pointer(o), o.ID, o.Name, "AfterUpdate")
+	return fire(tx, "nodes", unsafe.Pointer(o), o.ID, o.Name, o.Ver, "AfterUpdate")
 }
 func (o *Node) AfterSave(tx *gorm.DB) error {
-	return fire(tx, "nodes", unsafe.Pointer(o), o.ID, o.Name, "AfterSave")
+	return fire(tx, "nodes", unsafe.Pointer(o), o.ID, o.Name, o.Ver, "AfterSave")
 }
 func (o *Node) BeforeDelete(tx *gorm.DB) error {
-	return fire(tx, "nodes", unsafe.Pointer(o), o.ID, o.Name, "BeforeDelete")
+	return fire(tx, "nodes", unsafe.Pointer(o), o.ID, o.Name, o.Ver, "BeforeDelete")
 }
 func (o *Node) AfterDelete(tx *gorm.DB) error {
-	return fire(tx, "nodes", unsafe.Pointer(o), o.ID, o.Name, "AfterDelete")
+	return fire(tx, "nodes", unsafe.Pointer(o), o.ID, o.Name, o.Ver, "AfterDelete")
 }
 func (o *Node) AfterFind(tx *gorm.DB) error {
-	return fire(tx, "nodes", unsafe.Pointer(o), o.ID, o.Name, "AfterFind")
+	return fire(tx, "nodes", unsafe.Pointer(o), o.ID, o.Name, o.Ver, "AfterFind")
 }
